@@ -22,6 +22,10 @@ pub struct AikCfg {
     pub max_helpers: usize,
     /// weight of aborting constructs (fail/todo/partial expect) relative to ~100
     pub abort_weight: u32,
+    /// weight of `expect <refutable pattern> = value`
+    pub expect_weight: u32,
+    /// weight of the closure scenario (a possibly-throwing binding captured by a closure that may never be called)
+    pub closure_weight: u32,
     /// weight of trace / `?` constructs
     pub trace_weight: u32,
     /// weight of Data casts
@@ -32,7 +36,7 @@ pub struct AikCfg {
 
 impl Default for AikCfg {
     fn default() -> Self {
-        AikCfg { max_depth: 5, max_adts: 3, max_helpers: 4, abort_weight: 3, trace_weight: 3, cast_weight: 6, opaque: false, builtins: true }
+        AikCfg { max_depth: 5, max_adts: 3, max_helpers: 4, abort_weight: 3, expect_weight: 3, closure_weight: 2, trace_weight: 3, cast_weight: 6, opaque: false, builtins: true }
     }
 }
 
@@ -477,6 +481,11 @@ impl<'s, 'd> Gen<'s, 'd> {
         if depth == 0 || self.nodes > 220 {
             return self.leaf(sc, t);
         }
+        if matches!(t, Ty::Fn(..)) {
+            // no let/if/when around a function-valued result: a binding directly in front of a
+            // returned lambda is the recorded known finding (see returned_closure)
+            return self.fn_value(sc, t, depth - 1);
+        }
         let d = depth - 1;
         let ab = self.cfg.abort_weight;
         let tr = self.cfg.trace_weight;
@@ -484,7 +493,7 @@ impl<'s, 'd> Gen<'s, 'd> {
         let ser = Self::serialisable(t);
         let has_rec = sc.rec.as_ref().is_some_and(|r| r.ret == *t && r.budget > 0);
         // generic alternatives
-        let weights: [u32; 16] = [
+        let weights: [u32; 17] = [
             10,                          // 0 leaf
             8,                           // 1 type-specific
             6,                           // 2 let
@@ -493,7 +502,7 @@ impl<'s, 'd> Gen<'s, 'd> {
             7,                           // 5 call
             3,                           // 6 apply lambda
             3,                           // 7 projection (tuple/pair/field)
-            ab,                          // 8 expect Some(x) = ..
+            ab + self.cfg.expect_weight, // 8 expect <pattern> = ..
             if ser { cw } else { 0 },    // 9 data round trip
             ab / 2 + (ab > 0) as u32,    // 10 fail / todo
             tr,                          // 11 trace
@@ -501,6 +510,7 @@ impl<'s, 'd> Gen<'s, 'd> {
             2,                           // 13 pipe
             2,                           // 14 when on literal-ish / nested block
             if matches!(t, Ty::Fn(..)) { 0 } else { 2 }, // 15 let-destructuring
+            self.cfg.closure_weight,     // 16 closure scenario
         ];
         match self.src.weighted(&weights) {
             0 => self.leaf(sc, t),
@@ -571,6 +581,36 @@ impl<'s, 'd> Gen<'s, 'd> {
                 E::Apply(bx(E::Lam(vec![(x, t2)], t.clone(), bx(body))), vec![arg])
             }
             7 => self.projection(sc, t, d),
+            8 if self.src.below((ab + self.cfg.expect_weight) as usize) >= ab as usize / 2 => {
+                // expect <refutable pattern> = value: one part of a partition of the value's
+                // type (list patterns with discards and open tails, constructors, refined tuples)
+                let st = if self.src.chance(1, 2) { Ty::list(self.ty(1)) } else { self.scrutinee_ty() };
+                // values near the boundary of the pattern: short list literals, not only
+                // arbitrary expressions
+                let val = match &st {
+                    Ty::List(et) if self.src.chance(2, 3) => {
+                        let n = self.src.below(4);
+                        E::List((0..n).map(|_| self.expr(sc, et, d.min(1))).collect(), None)
+                    }
+                    _ => self.expr(sc, &st, d),
+                };
+                let (pat, binds) = match (if self.src.chance(1, 3) { self.refine(&st) } else { None }) {
+                    Some(r) => r,
+                    None => {
+                        let mut parts = self.partition(&st, 1);
+                        let k = self.src.below(parts.len());
+                        parts.swap_remove(k)
+                    }
+                };
+                let n = binds.len();
+                sc.vars.extend(binds);
+                let body = self.expr(sc, t, d);
+                for _ in 0..n {
+                    sc.vars.pop();
+                }
+                self.mark("expect-pattern");
+                E::Expect(pat, st, bx(val), bx(body))
+            }
             8 => {
                 let t2 = self.ty(1);
                 let o = self.expr(sc, &Ty::opt(t2.clone()), d);
@@ -598,6 +638,7 @@ impl<'s, 'd> Gen<'s, 'd> {
                 }
             }
             12 => self.rec_call(sc, d),
+            16 => self.closure_scenario(sc, t, d),
             _ => {
                 // let (a, b) = tuple ; body
                 let n = 2 + self.src.below(2);
@@ -616,6 +657,154 @@ impl<'s, 'd> Gen<'s, 'd> {
                 E::Let(Pat::Tuple(names.into_iter().map(Pat::Var).collect()), tt, bx(val), bx(body))
             }
         }
+    }
+
+    /// A helper `mk(a, b) -> fn(Int) -> Int { let x = <may throw>; <guard>; let g = fn(p) {..x..}; g }`
+    /// whose result the caller binds and applies on some paths only.
+    fn returned_closure(&mut self, sc: &mut Scope, t: &Ty, d: usize) -> E {
+        self.mark("returned-closure");
+        let fname = self.name("mk");
+        let ft = Ty::func(vec![Ty::Int], Ty::Int);
+        let second_is_list = self.src.bool();
+        let pb_ty = if second_is_list { Ty::list(Ty::Int) } else { Ty::Int };
+        let (a, b, x, g, p, h) = ("a".to_string(), "b".to_string(), "x".to_string(), "g".to_string(), "p".to_string(), "h".to_string());
+        let thrower = match self.src.below(3) {
+            0 => E::Bin(Op::Div, bx(int(100)), bx(E::Var(a.clone()))),
+            1 => E::Bin(Op::Mod, bx(E::Var(a.clone())), bx(E::Bin(Op::Sub, bx(E::Var(a.clone())), bx(int(1))))),
+            _ => E::Builtin(Bi::QuotientInteger, vec![int(7), E::Var(a.clone())]),
+        };
+        let uses_h = second_is_list && self.src.bool();
+        let mut body_expr = match self.src.below(3) {
+            0 => E::Bin(Op::Add, bx(E::Var(x.clone())), bx(E::Var(p.clone()))),
+            1 => E::Bin(Op::Add, bx(E::Bin(Op::Mul, bx(E::Var(x.clone())), bx(E::Var(p.clone())))), bx(E::Var(x.clone()))),
+            _ => E::If(vec![(E::Bin(Op::Lt, bx(E::Var(p.clone())), bx(int(0))), E::Var(x.clone()))], bx(E::Var(p.clone()))),
+        };
+        if uses_h {
+            body_expr = E::Bin(Op::Add, bx(body_expr), bx(E::Var(h.clone())));
+        }
+        let lam = E::Lam(vec![(p.clone(), Ty::Int)], Ty::Int, bx(body_expr));
+        let tail = match self.src.below(3) {
+            0 => E::Let(Pat::Var(g.clone()), ft.clone(), bx(lam), bx(E::Var(g.clone()))),
+            1 => lam,
+            _ => E::Let(Pat::Var(g.clone()), ft.clone(), bx(lam), bx(call("g_id", vec![E::Var(g.clone())]))),
+        };
+        let guarded = if second_is_list {
+            let pat = if uses_h { Pat::List(vec![Pat::Var(h.clone())], Some(None)) } else { Pat::List(vec![Pat::Discard], Some(None)) };
+            match self.src.below(3) {
+                0 | 1 => E::Expect(pat, pb_ty.clone(), bx(E::Var(b.clone())), bx(tail)),
+                _ if !uses_h => E::If(vec![(E::Bin(Op::Gt, bx(call("g_length", vec![E::Var(b.clone())])), bx(int(0))), tail)], bx(E::Fail(Some("guard".into())))),
+                _ => E::Expect(pat, pb_ty.clone(), bx(E::Var(b.clone())), bx(tail)),
+            }
+        } else {
+            let cond = E::Bin(Op::Gt, bx(E::Var(b.clone())), bx(int(0)));
+            // (no unguarded variant: `let x = <throws>` directly followed by the returned lambda is
+            // the recorded known finding `optimiser:binding-made-lazy-under-returned-lambda`)
+            match self.src.below(2) {
+                0 => E::Expect(Pat::Bool(true), Ty::Bool, bx(cond), bx(tail)),
+                _ => E::If(vec![(cond, tail)], bx(E::Fail(Some("guard".into())))),
+            }
+        };
+        let body = E::Let(Pat::Var(x.clone()), Ty::Int, bx(thrower), bx(guarded));
+        self.m.fns.push(FnDecl { name: fname.clone(), tyvars: 0, params: vec![(a, Ty::Int), (b, pb_ty.clone())], ret: ft.clone(), body, public: false });
+        // use site
+        let f = self.name("v");
+        let a0 = if self.src.bool() { E::Int(BigInt::from(self.src.range(-1, 2)), 0) } else { self.expr(sc, &Ty::Int, d.min(1)) };
+        let b0 = if second_is_list {
+            let n = self.src.below(3);
+            E::List((0..n).map(|i| int(i as i64 + 1)).collect(), None)
+        } else if self.src.bool() {
+            E::Int(BigInt::from(self.src.range(-1, 2)), 0)
+        } else {
+            self.expr(sc, &Ty::Int, d.min(1))
+        };
+        sc.vars.push((f.clone(), ft.clone()));
+        let cond = self.expr(sc, &Ty::Bool, d.min(1));
+        let applied = E::Apply(bx(E::Var(f.clone())), vec![self.expr(sc, &Ty::Int, d.min(1))]);
+        let on = if *t == Ty::Int {
+            applied
+        } else {
+            let rest = self.expr(sc, t, d.min(2));
+            E::If(vec![(E::Bin(Op::Eq, bx(applied), bx(int(0))), rest.clone())], bx(rest))
+        };
+        let off = self.expr(sc, t, d.min(2));
+        sc.vars.pop();
+        E::Let(Pat::Var(f), ft, bx(call(&fname, vec![a0, b0])), bx(E::If(vec![(cond, on)], bx(off))))
+    }
+
+    /// let x = <may throw>; <guard>; let g = fn(p) { .. x .. }; <g called on some paths only>
+    fn closure_scenario(&mut self, sc: &mut Scope, t: &Ty, d: usize) -> E {
+        self.mark("closure-scenario");
+        if self.src.bool() {
+            return self.returned_closure(sc, t, d);
+        }
+        let x = self.name("v");
+        let g = self.name("v");
+        let p = self.name("p");
+        // the captured binding: a division (or an expect-able value) over variables in scope
+        let num = self.expr(sc, &Ty::Int, d.min(1));
+        let den = self.expr(sc, &Ty::Int, d.min(1));
+        let thrower = match self.src.below(3) {
+            0 => E::Bin(Op::Div, bx(num), bx(den)),
+            1 => E::Bin(Op::Mod, bx(num), bx(den)),
+            _ => E::Builtin(Bi::QuotientInteger, vec![num, den]),
+        };
+        sc.vars.push((x.clone(), Ty::Int));
+        // closure body mentions x once or twice
+        let body_expr = match self.src.below(3) {
+            0 => E::Bin(Op::Add, bx(E::Var(x.clone())), bx(E::Var(p.clone()))),
+            1 => E::Bin(Op::Add, bx(E::Bin(Op::Add, bx(E::Var(x.clone())), bx(E::Var(p.clone())))), bx(E::Var(x.clone()))),
+            _ => E::If(vec![(E::Bin(Op::Lt, bx(E::Var(p.clone())), bx(int(0))), E::Var(x.clone()))], bx(E::Var(p.clone()))),
+        };
+        let ft = Ty::func(vec![Ty::Int], Ty::Int);
+        let lam = E::Lam(vec![(p.clone(), Ty::Int)], Ty::Int, bx(body_expr));
+        sc.vars.push((g.clone(), ft.clone()));
+        // the continuation: the closure is applied on one branch only, or not at all
+        let cond = self.expr(sc, &Ty::Bool, d.min(1));
+        let applied = E::Apply(bx(E::Var(g.clone())), vec![self.expr(sc, &Ty::Int, d.min(1))]);
+        let use_site = |gg: &mut Self, sc: &mut Scope| -> E {
+            if *t == Ty::Int {
+                applied.clone()
+            } else {
+                let rest = gg.expr(sc, t, d.min(2));
+                E::If(vec![(E::Bin(Op::Eq, bx(applied.clone()), bx(int(0))), rest.clone())], bx(rest))
+            }
+        };
+        let cont = match self.src.below(3) {
+            0 => {
+                let a = use_site(self, sc);
+                let b = self.expr(sc, t, d.min(2));
+                E::If(vec![(cond, a)], bx(b))
+            }
+            1 => {
+                // handed to a higher-order helper that may not call it
+                let xs = self.expr(sc, &Ty::list(Ty::Int), d.min(1));
+                let mapped = call("g_map", vec![xs, E::Var(g.clone())]);
+                if *t == Ty::list(Ty::Int) {
+                    mapped
+                } else {
+                    let rest = self.expr(sc, t, d.min(2));
+                    let ys = self.name("v");
+                    let cond2 = E::Bin(Op::Eq, bx(call("g_length", vec![E::Var(ys.clone())])), bx(int(0)));
+                    E::Let(Pat::Var(ys), Ty::list(Ty::Int), bx(mapped), bx(E::If(vec![(cond2, rest.clone())], bx(rest))))
+                }
+            }
+            _ => self.expr(sc, t, d.min(2)),
+        };
+        sc.vars.pop();
+        let with_closure = E::Let(Pat::Var(g), ft, bx(lam), bx(cont));
+        // the guard between the binding and the closure
+        let guarded = match self.src.below(4) {
+            0 => E::Expect(Pat::Bool(true), Ty::Bool, bx(self.expr(sc, &Ty::Bool, d.min(1))), bx(with_closure)),
+            1 => {
+                let et = self.ty(1);
+                let l = self.expr(sc, &Ty::list(et), d.min(1));
+                E::Expect(Pat::List(vec![Pat::Discard], Some(None)), Ty::list(Ty::Int), bx(l), bx(with_closure))
+            }
+            2 => E::If(vec![(self.expr(sc, &Ty::Bool, d.min(1)), with_closure)], bx(E::Fail(Some("guard".into())))),
+            _ => with_closure,
+        };
+        sc.vars.pop();
+        E::Let(Pat::Var(x), Ty::Int, bx(thrower), bx(guarded))
     }
 
     fn fn_ty(&mut self) -> Ty {
@@ -987,7 +1176,7 @@ impl<'s, 'd> Gen<'s, 'd> {
     /// A pattern for a value of type `t` that matches everything, binding variables.
     fn open_pat(&mut self, t: &Ty, binds: &mut Vec<(String, Ty)>, depth: usize) -> Pat {
         let simple = |g: &mut Self, binds: &mut Vec<(String, Ty)>| {
-            if g.src.chance(1, 4) {
+            if g.src.chance(1, 3) {
                 Pat::Discard
             } else {
                 let x = g.name("m");
@@ -1035,7 +1224,7 @@ impl<'s, 'd> Gen<'s, 'd> {
                 out
             }
             Ty::List(et) => {
-                let n = 1 + self.src.below(2);
+                let n = 1 + self.src.below(3);
                 let mut out = vec![];
                 for len in 0..n {
                     let mut b = vec![];
@@ -1044,7 +1233,7 @@ impl<'s, 'd> Gen<'s, 'd> {
                 }
                 let mut b = vec![];
                 let ps: Vec<Pat> = (0..n).map(|_| self.open_pat(et, &mut b, depth)).collect();
-                let tail = if self.src.chance(1, 4) {
+                let tail = if self.src.chance(2, 5) {
                     Some(None)
                 } else {
                     let x = self.name("m");
@@ -1156,8 +1345,22 @@ impl<'s, 'd> Gen<'s, 'd> {
                 Some((Pat::Ctor { adt: OPT, ctor: 0, args: vec![p], labelled: false, spread: false }, vec![]))
             }
             Ty::List(et) => {
+                // a literal at position k (0..2), open patterns before it, then closed / `..` / `..rest`
                 let p = lit_of(self, et)?;
-                Some((Pat::List(vec![p], Some(None)), vec![]))
+                let k = self.src.below(3);
+                let mut b = vec![];
+                let mut ps: Vec<Pat> = (0..k).map(|_| self.open_pat(et, &mut b, 0)).collect();
+                ps.push(p);
+                let tail = match self.src.below(3) {
+                    0 => None,
+                    1 => Some(None),
+                    _ => {
+                        let x = self.name("m");
+                        b.push((x.clone(), t.clone()));
+                        Some(Some(x))
+                    }
+                };
+                Some((Pat::List(ps, tail), b))
             }
             Ty::Tuple(ts) => {
                 let k = self.src.below(ts.len());
